@@ -6,7 +6,7 @@
 // OB: ob_join_T2 tier=quick unwind=40 timeout=900 solver=cadical mem_gb=8 bounds="JOIN half of a region with num=2: thread 1 writes plain data then runs decascade(); thread 0 runs decascade() then reads the data; 24 steps" desc="the master leaves decascade() only after the worker has entered its own (done = 1), and everything the worker wrote before is visible to the master afterwards: the done flag is a release/acquire edge under the memory orders in the code; no deadlock"
 // OB: ob_join_T3 tier=quick unwind=50 timeout=900 solver=cadical mem_gb=8 bounds="JOIN half with num=3: thread 0 waits for threads 1 and 2 (both its children in the wake-up tree); 34 steps" desc="as ob_join_T2 with two children"
 // ASSUME: std::mutex / std::condition_variable are contract models (rt/vf_externs.h); ONE spurious return from condition_variable::wait per execution is allowed (unit option spurious=1)
-// OB: ob_fork_slow_T2 tier=quick unwind=40 timeout=900 solver=cadical mem_gb=14 bounds="FORK half with num=2 in the mutex/condition-variable mode: thread 0 writes plain data then runs cascade(false); thread 1 runs wait(false) then reads the data; one spurious wake-up allowed; 24 steps" desc="a parked pool thread leaves wait() only after its parent woke it (done = 0), also across a spurious return of the condition variable, and then sees everything the master wrote before the region; no deadlock"
+// OB: ob_fork_slow_T2 tier=thorough unwind=40 timeout=900 solver=cadical mem_gb=14 bounds="FORK half with num=2 in the mutex/condition-variable mode: thread 0 writes plain data then runs cascade(false); thread 1 runs wait(false) then reads the data; one spurious wake-up allowed; 24 steps" desc="a parked pool thread leaves wait() only after its parent woke it (done = 0), also across a spurious return of the condition variable, and then sees everything the master wrote before the region; no deadlock"
 // OB: ob_fork_T2 tier=quick unwind=40 timeout=900 solver=cadical mem_gb=8 bounds="FORK half with num=2: thread 0 writes plain data then runs cascade(true); thread 1 runs wait(true) then reads the data and its mailbox range; 24 steps" desc="the woken thread sees everything the master wrote before the region (fastRelease is a release/acquire edge) and the sub-range its parent assigned; no deadlock"
 #include "vf.h"
 #include "vf_nodie.h"
